@@ -26,3 +26,16 @@ Definition chk_C12 (plain paren : obs) (fastans : option bool) : option c12_clau
       | None => if obs_eqb plain paren then None else Some ClDecisionDiffers
       end
   end.
+
+(* Concurrent evaluations of ONE compiled predicate (K lines): the decision for a row is a function of
+   the predicate and that row, whoever else evaluates the same compiled predicate at the same time.
+   [expected] is the decision for the row (the model's where the text is of a shortcut shape, and what a
+   private, sequentially used compilation of the same text answers); [ntrue] / [nfalse] / [npanic] count
+   what the concurrent evaluations of that row on the SHARED compilation answered (accept / reject /
+   the evaluation aborted the calling goroutine). *)
+Inductive c12k_clause := ClConcurrentPanics | ClConcurrentDiffers.
+
+Definition chk_C12K (expected : bool) (ntrue nfalse npanic : N) : option c12k_clause :=
+  if negb (N.eqb npanic 0) then Some ClConcurrentPanics
+  else if N.eqb (if expected then nfalse else ntrue) 0 then None
+  else Some ClConcurrentDiffers.
